@@ -301,6 +301,38 @@ def r4_depth(run, F):
                    "`%s` counts the leading `&` but is not stored in DerefAddressDepth {depth}: the address depth of the "
                    "reference is lost (e.g. `|&x|`)" % name, sample={"fn": body["npath"], "counter": name})
     run.require(n >= 3, "expected three `&` counting loops, found %d" % n)
+    # the three counting loops are siblings (and have a sibling in the first-generation parser): each starts its counter at 1
+    # for the first `&`, adds one per further `&` and rejects when the *counter itself* exceeds MAX_ADDRESS_DEPTH, so the
+    # largest accepted number of ampersands is the documented limit at every site
+    accepted = {}
+    for body in F.lib.bodies.values():
+        np = body["npath"]
+        if "hir" not in body or not (np.startswith("delta::parser::parse_") or np.startswith("alpha::parser::parse_")) or np.count("::") != 2:
+            continue
+        inits = {}
+        for x in walk(body["hir"]):
+            if x.get("k") == "Let" and x["pat"].get("k") == "Bind" and isinstance(x.get("init"), dict) and hirq.unwrap_trivial(x["init"]).get("k") == "Lit":
+                inits[x["pat"]["lid"]] = hirq.unwrap_trivial(x["init"]).get("v")
+        site = 0
+        for x in walk(body["hir"]):
+            c_ = hirq.unwrap_trivial(x["cond"]) if x.get("k") == "If" else {}
+            if c_.get("k") == "Binary" and c_.get("op") in ("Gt", "Ge") and str(hirq.unwrap_trivial(c_["rhs"]).get("res", "")).endswith("MAX_ADDRESS_DEPTH"):
+                l_ = hirq.unwrap_trivial(c_["lhs"])
+                k_ = 0
+                if l_.get("k") == "Binary" and l_.get("op") == "Add" and isinstance(hirq.unwrap_trivial(l_["rhs"]).get("v"), int):
+                    k_ = hirq.unwrap_trivial(l_["rhs"]).get("v")
+                    l_ = hirq.unwrap_trivial(l_["lhs"])
+                if l_.get("k") != "Path" or l_.get("rk") != "Local" or l_.get("lid") not in inits:
+                    continue      # not a counter started from a literal in this function (alpha's check on a parsed reference)
+                site += 1
+                limit = F.const_value(("delta" if np.startswith("delta") else "alpha") + "::parser::MAX_ADDRESS_DEPTH")
+                # the counter is the number of `&` seen so far (it starts at 1 when the first one was taken before the loop, at 0
+                # when the loop takes them all); the reference is rejected when counter + k > / >= limit
+                largest = limit - k_ - (1 if c_["op"] == "Ge" else 0)
+                accepted["%s#%d" % (np.split("::", 1)[0] + "::" + np.split("::")[-1], site)] = largest
+    vals = set(accepted.values())
+    run.ob("R4-ADDRESS-DEPTH", "largest accepted number of `&` agrees", len(accepted) >= 4 and len(vals) == 1, "src/delta/parser.rs / src/alpha/parser.rs",
+           "every `&` counting loop of both parsers accepts the same largest number of ampersands: %s" % accepted, sample=accepted)
 
 
 def op_tables(F, prefix, tokenenum):
